@@ -1122,6 +1122,9 @@ func rulePanic(c *Ctx) {
 						} else {
 							c.ok(key, in.Pos(), "tabled: %s", why)
 						}
+					} else if why, ok := mustTabledThroughCallers(c, short, fn, callee.Pkg.Pkg.Name()+"."+callee.Name(), 0); ok {
+						// a helper that only tabled functions call (the call moved into a function of its own)
+						c.ok(key, in.Pos(), "tabled through its only caller(s): %s", why)
 					} else if callee.Name() == "MustCompile" && callee.Pkg.Pkg.Path() == "regexp" && quoteMetaOfOneRune(in, x.Common().Args[0]) {
 						// the same argument by role, wherever the code sits: the pattern is QuoteMeta(s) and the call is
 						// dominated by utf8.RuneCountInString(s) == 1 for the same s
@@ -1305,4 +1308,56 @@ func quoteMetaOfOneRune(in ssa.Instruction, pat ssa.Value) bool {
 		}
 	}
 	return false
+}
+
+// mustTabledThroughCallers: every static caller of fn (there is at least one, and fn is not used as a value) is in the
+// table of accepted Must* sites for the same callee - directly or, again, through its own callers.
+func mustTabledThroughCallers(c *Ctx, short string, fn *ssa.Function, what string, depth int) (string, bool) {
+	if depth > 2 || fn == nil {
+		return "", false
+	}
+	var callers []*ssa.Function
+	escaped := false
+	for _, g := range c.srcFuncs(short) {
+		g := g
+		allInstrs(g, func(in ssa.Instruction) {
+			if ci, ok := in.(ssa.CallInstruction); ok && ci.Common().StaticCallee() == fn {
+				callers = append(callers, g)
+				return
+			}
+			for _, op := range in.Operands(nil) {
+				if *op == ssa.Value(fn) {
+					if _, isCall := in.(ssa.CallInstruction); isCall {
+						callers = append(callers, g) // handed to a callee as the function to apply: g decides that it runs
+					} else {
+						escaped = true
+					}
+				}
+			}
+		})
+	}
+	if escaped || len(callers) == 0 {
+		return "", false
+	}
+	reason := ""
+	for _, g := range callers {
+		if g == fn {
+			continue
+		}
+		k := strings.ReplaceAll(fnKey(g), "(*", "")
+		k = strings.ReplaceAll(k, ")", "")
+		if why, ok := mustTable[k+":"+what]; ok {
+			if k == "interp.interp.setSpecial" {
+				return "", false // that entry has a side condition on the call site itself
+			}
+			reason = why
+			continue
+		}
+		why, ok := mustTabledThroughCallers(c, short, g, what, depth+1)
+		if !ok {
+			return "", false
+		}
+		reason = why
+	}
+	return reason, reason != ""
 }
